@@ -102,14 +102,19 @@ structure Variant where
   scalarOK : Bool
   /-- `find_nulls` has an overload for `pandas.DataFrame` (rows with a null cell) -/
   frameNulls : Bool
+  /-- `ModelSpecs.get_model_matrix`, per-spec branch: every spec is generated with ONE shared set
+  (a fresh one when the caller passed none), and all specs are generated again once the set grew -/
+  sharedPerSpec : Bool
 deriving DecidableEq, Repr
 
 /-- the tree before the C06 repairs -/
-def legacy : Variant := ⟨true, false, false, false, false, false, false, false⟩
+def legacy : Variant := ⟨true, false, false, false, false, false, false, false, false⟩
 /-- the tree before the two value-shape repairs (scalar constants, data frames) -/
-def beforeValues : Variant := ⟨false, true, true, true, true, true, false, false⟩
+def beforeValues : Variant := ⟨false, true, true, true, true, true, false, false, false⟩
+/-- the tree before the per-spec branch of `ModelSpecs.get_model_matrix` shared one drop set -/
+def beforeShared : Variant := ⟨false, true, true, true, true, true, true, true, false⟩
 /-- the tree under test (what the engine runs, what the property theorems are about) -/
-def current : Variant := ⟨false, true, true, true, true, true, true, true⟩
+def current : Variant := ⟨false, true, true, true, true, true, true, true, true⟩
 
 /-! ## The drop set (a Python `set[int]`) -/
 
@@ -674,7 +679,8 @@ deriving Repr
 inductive Route where
   /-- one `FormulaMaterializer.get_model_matrix` call over all parts with this `drop_rows` -/
   | joint (d : Option DropSet)
-  /-- one call per part, in order, each receiving this same object -/
+  /-- the per-spec branch of `ModelSpecs.get_model_matrix`: one materializer call per part, in
+  order, each receiving this same object (see `call`) -/
   | perPart (d : Option DropSet)
 deriving DecidableEq, Repr
 
@@ -714,7 +720,8 @@ def carry (d : Option DropSet) (d1 : DropSet) : Option DropSet :=
   | some _ => some d1
   | none => none
 
-/-- one materializer call per part; the same set object (when there is one) is threaded through -/
+/-- ONE PASS over the parts: one materializer call per part; the same set object (when there is
+one) is threaded through -/
 def perPartCalls {L ρ : Type} [DecidableEq L] (v : Variant) (labels : List L) (n : Nat)
     (pol : Policy) (o : Output) : List (Part ρ) → Option DropSet →
     Except Err (List (Matrix L ρ) × Option DropSet)
@@ -740,6 +747,29 @@ def call {L ρ : Type} [DecidableEq L] (v : Variant) (labels : List L) (n : Nat)
                | some _, some _ => some d1   -- the caller's object was the one that got updated
                | some s, none => some s⟩      -- the caller's object never reached the materializer
   | .perPart d =>
+    if v.sharedPerSpec then
+      -- `if drop_rows is None: drop_rows = set()`; `n_dropped = len(drop_rows)`; `generate()`;
+      -- `if len(drop_rows) != n_dropped: generate()` (all specs again, with the complete set)
+      let d0 := initialSet d
+      match perPartCalls v labels n pol o parts (some d0) with
+      | .error e => .error e
+      | .ok (ms, dEnd) =>
+        let d1 := initialSet dEnd
+        if d1.length != d0.length then
+          match perPartCalls v labels n pol o parts (some d1) with
+          | .error e => .error e
+          | .ok (ms2, dEnd2) =>
+            .ok ⟨ms2, match c.caller, d with
+                      | none, _ => none
+                      | some _, some _ => some (initialSet dEnd2)
+                      | some s, none => some s⟩
+        else
+          .ok ⟨ms, match c.caller, d with
+                   | none, _ => none
+                   | some _, some _ => some d1
+                   | some s, none => some s⟩
+    else
+    -- (before the repair: one pass, every part with what had accumulated so far)
     match perPartCalls v labels n pol o parts d with
     | .error e => .error e
     | .ok (ms, dEnd) =>
